@@ -140,5 +140,27 @@ PROPS['C05'] = dict(
   outside=['complexes with more cells than the bound', 'characteristics other than 2 and 5', 'identifiers different from positions (covered in C06 after swaps)'],
   units=_u05)
 
+# ------------------------------------------------------------------------------------------------ C06
+_u06 = []
+for ci, col in enumerate(_COLS):
+    if col != 'HEAP': _u06.append(_pm('C06_vine.cpp', 'v_chain_pos_%s' % col.lower(), col=col, flavour=2, idx=1, vine=1, m=4, extra=['VP_K=2'], weight=4, must=('end', 'swap', 'swap-true', 'swap-false')))
+    _u06.append(_pm('C06_vine.cpp', 'v_ru_pos_%s' % col.lower(), col=col, flavour=1, idx=1, vine=1, m=4, extra=['VP_K=2'], weight=4, must=('end', 'swap', 'swap-true', 'swap-false')))
+_u06.append(_pm('C06_vine.cpp', 'v_ru_id', flavour=1, idx=2, vine=1, m=4, extra=['VP_K=2', 'VP_NOIDENT'], weight=4, must=('end', 'swap')))
+_u06.append(_pm('C06_vine.cpp', 'v_chain_id_rm', flavour=2, idx=2, vine=1, rows=1, removable=1, m=4, extra=['VP_K=2'], weight=8, must=('end', 'swap', 'remove_maximal_cell', 'insert')))
+_u06.append(_pm('C06_vine.cpp', 'v_chain_pos_rm', flavour=2, idx=1, vine=1, rows=1, removable=1, m=4, extra=['VP_K=2'], weight=8, must=('end', 'swap', 'remove_maximal_cell', 'insert')))
+_u06.append(_pm('C06_vine.cpp', 'v_ru_pos_rm', flavour=1, idx=1, vine=1, removable=1, m=4, extra=['VP_K=2'], weight=8, must=('end', 'swap', 'remove_maximal_cell', 'insert')))
+_kf6 = _pm('C06_vine.cpp', 'v_ru_pos_rm_kf', flavour=1, idx=1, vine=1, removable=1, m=4, extra=['VP_K=2', 'VP_KF_RU_RM'], weight=8, must=()); _kf6['kf'] = 'C06-ru-swap-after-inner-removal'; _u06.append(_kf6)
+_u06.append(_pm('C06_vine.cpp', 'v_ru_pos_m5k3', flavour=1, idx=1, vine=1, m=5, extra=['VP_K=3'], weight=10, must=('end', 'swap')))
+_u06.append(_pm('C06_vine.cpp', 'v_chain_pos_m5k3', flavour=2, idx=1, vine=1, m=5, extra=['VP_K=3'], weight=10, must=('end', 'swap')))
+for ci, col in enumerate(_COLS):
+    for fl in (1, 2):
+        if col == 'HEAP' and fl == 2: continue
+        _u06.append(_pm('C06_vine.cpp', 't_%s_pos_rm_%s' % (_FL[fl], col.lower()), col=col, flavour=fl, idx=1, vine=1, rows=1 if (fl == 2 and col != 'HEAP') else 0, removable=1, m=5, nv=4, extra=['VP_K=3'], tiers=['thorough'], weight=30, must=('end', 'swap')))
+PROPS['C06'] = dict(
+  explanation='Bounded symbolic execution of the real RU_vine_swap / Chain_vine_swap code through Matrix<Options> (clang IR of the headers in /repo): base filtration and a walk of admissible transpositions, removals of maximal cells and insertions are solver variables; after every step the matrix is compared with a matrix freshly built by the same code on the resulting filtration, with an independent dense reduction, and with its defining identities; the boolean returned by a transposition is checked against the two barcodes.',
+  bounds=dict(quick='filtered sub-complexes of the triangle with m=4 cells, walks of k=2 steps (m=5, k=3 for the default column type), RU and chain flavours, all column types with position indexing, identifier indexing, removable columns with remove_maximal_cell and insertions, Z2', thorough='m=5 cells of the tetrahedron, k=3, every column type with removals'),
+  outside=['walks longer than k', 'matrices without stored barcode (need user comparators; the truthfulness clause needs the barcode)', 'Z_p vine swaps (the library offers vine updates for Z_2 only)'],
+  units=_u06)
+
 NOT_APPLICABLE = {}
 NOTES = 'Clauses outside every claim: real thread schedules/TBB execution (engine is sequential), iostream text I/O, GMP arbitrary precision, Eigen-based Coxeter point location under general affine maps, SIMD paths of boost::unordered_flat_map (compiled with -U__SSE2__), allocation failure, inputs beyond the stated bounds.'
